@@ -136,7 +136,7 @@ fn build_kb(w: &ParWorkload) -> KnowledgeBase {
             actions.push(ActionType::Set { field: fname(f), value: Value::Integer(v) });
         }
         if let Some(k) = r.custom {
-            actions.push(ActionType::Custom { action_type: ["dropD", "setD7", "setE7", "nestE7"][k as usize % 4].to_string(), params: std::collections::HashMap::new() });
+            actions.push(ActionType::Custom { action_type: ["dropD", "setD7", "setE7", "nestE7", "failE"][k as usize % 5].to_string(), params: std::collections::HashMap::new() });
         }
         let mut rule = Rule::new(format!("R{i}"), to_group(&r.cond), actions).with_salience(r.salience);
         rule.enabled = r.enabled;
@@ -183,6 +183,9 @@ fn engine(w: &ParWorkload, enabled: bool) -> ParallelRuleEngine {
         let _ = f.set_nested("F.e", Value::Integer(7));
         Ok(Value::Boolean(true))
     });
+    // an action whose function fails (and writes nothing): whatever the engine makes of the failing rule
+    // itself, the verdicts on the other rules of its level, chunk and worker must not change
+    e.register_function("failE", |_args: &[Value], _f: &Facts| Err(rust_rule_engine::RuleEngineError::EvaluationError { message: "failE always fails".to_string() }));
     // writes a key of its own that no rule reads: may run beside either of the other two on any schedule
     e.register_function("setE7", |_args: &[Value], f: &Facts| {
         f.set("F.e", Value::Integer(7));
@@ -247,7 +250,9 @@ pub fn scenario(w: &ParWorkload, slot: &Shared) {
     // second, independent reference — only valid while the workers do not write facts
     if after == before {
         count(slot, "probe.workers_left_facts_unchanged");
-        for (i, r) in w.rules.iter().enumerate().filter(|(_, r)| r.enabled && !has_foreign_literal(&r.cond)) {
+        // (a rule whose own action fails is left to the comparison with the sequential path: the property
+        // does not say whether such a rule counts as fired)
+        for (i, r) in w.rules.iter().enumerate().filter(|(_, r)| r.enabled && !has_foreign_literal(&r.cond) && r.custom != Some(4)) {
             let mine = eval(&r.cond, &w.facts);
             let theirs = got.iter().find(|(n, _)| *n == format!("R{i}")).map(|(_, f)| *f);
             if theirs != Some(mine) {
@@ -275,7 +280,10 @@ pub fn scenario(w: &ParWorkload, slot: &Shared) {
     if w.rules.iter().any(|r| has_foreign_literal(&r.cond)) {
         count(slot, "probe.literal_of_another_type_than_the_field");
     }
-    if w.rules.iter().any(|r| r.custom.is_some() && r.enabled) {
+    if w.rules.iter().any(|r| r.custom == Some(4) && r.enabled) {
+        count(slot, "probe.action_whose_function_returns_an_error");
+    }
+    if w.rules.iter().any(|r| r.custom.is_some() && r.custom != Some(4) && r.enabled) {
         count(slot, if w.nested { "probe.action_that_writes_a_member_of_the_object_fact" } else { "probe.action_that_writes_a_fact_on_the_top_level" });
     }
     if !w.enabled {
@@ -352,6 +360,15 @@ pub fn generate(rng: &mut Rng, _thorough: bool) -> ParWorkload {
     if nested {
         for r in rules.iter_mut() {
             r.custom = if rng.chance(1, 4) { Some(3) } else { None };
+        }
+    }
+    // one workload in six: a quarter of the rules without another custom action get one whose registered
+    // function returns an error (it writes nothing, so it may sit on any level)
+    if rng.chance(1, 6) {
+        for r in rules.iter_mut() {
+            if r.custom.is_none() && rng.chance(1, 4) {
+                r.custom = Some(4);
+            }
         }
     }
     ParWorkload {
